@@ -24,6 +24,8 @@ var c02Texts = []string{
 	"", "",
 	"a,b", "(x)", "k=v", "AND", "not",
 	"10\u00a0000\u00a0km", "東京\u3000都", "line1\nline2", "a\u2003b", "x\u00a0 y",
+	// texts that begin and end with the very strings used as encapsulation pairs
+	`"x"`, `""`, `"a" b "c"`, "<v>", "'q'", "«z»", "[i]", "`t`", "{m}", "(p)",
 }
 
 func c02Leaf(r *core.Rng) *LeafDesc {
@@ -134,6 +136,15 @@ func c02Run(c *core.Ctx, idx int) {
 		tree = c02Gen.Gen(r)
 		if tree.Kind == "BASIC" {
 			tree.Kind = "AND"
+		}
+		if r.Chance(1, 6) {
+			// no-nesting switched on after the elements are in: what is already held renders as before
+			tree.Walk(func(n *TNode) {
+				if n.T == "stack" && r.Chance(1, 2) {
+					n.NoNest = true
+				}
+			})
+			c.Count("trees.with-late-no-nesting")
 		}
 		c.Count("trees.random")
 	}
